@@ -145,8 +145,36 @@ Fixpoint explore (fuel : nat) (seen frontier : list st) : list st :=
 Definition inits : list st := [(fresh, init_conn false); (fresh, init_conn true)].
 Definition reach : list st := explore 200 inits inits.
 
-Definition closed_b (R : list st) : bool :=
-  forallb (fun x => forallb (fun i => mem (nxt x i) R) all_inputs) R.
+(** The reachable set is kept in buckets by a cheap key, so that a membership test looks at one
+    bucket instead of the whole set (the check is run again by coqchk, without the VM).  The key is only
+    a hint: [bmem] answering true puts the state in the flattened set whatever the keys are. *)
+Definition key (x : st) : N :=
+  let s := fst x in
+  ((match s_state s with SIdle => 0 | SLink => 1 | SLinked => 2 | SUnlinked => 3 | SRecycle => 4 end) * 64
+   + (match s_phase s with PStatusLine => 0 | PHeaders => 1 | PCookies => 2 | PBody => 3 | PChunks => 4
+                      | PTrailers => 5 | PTerminated => 6 | PError => 7 end) * 8
+   + (match s_origin s with ONone => 0 | OBackend => 1 | ODefault => 2 | OForced => 3 end) * 2
+   + (if c_h2 (snd x) then 1 else 0))%N.
+Fixpoint insert_b (x : st) (b : list (N * list st)) : list (N * list st) :=
+  match b with
+  | [] => [(key x, [x])]
+  | (k, l) :: r => if (k =? key x)%N then (k, x :: l) :: r else (k, l) :: insert_b x r
+  end.
+Definition bucketise (l : list st) : list (N * list st) := fold_right insert_b [] l.
+Fixpoint bmem (x : st) (b : list (N * list st)) : bool :=
+  match b with
+  | [] => false
+  | (k, l) :: r => if (k =? key x)%N then mem x l else bmem x r
+  end.
+Definition flat (b : list (N * list st)) : list st := flat_map snd b.
+Lemma bmem_In x b : bmem x b = true -> In x (flat b).
+Proof.
+  induction b as [|[k l] r IH]; cbn; [discriminate|].
+  intros H. apply in_or_app. destruct (k =? key x)%N; [left; apply mem_In, H | right; apply IH, H].
+Qed.
+
+Definition closed_b (B : list (N * list st)) : bool :=
+  forallb (fun x => forallb (fun i => bmem (nxt x i) B) all_inputs) (flat B).
 
 Definition check_all (R : list st) (p : st -> input -> bool) : bool :=
   forallb (fun x => forallb (p x) all_inputs) R.
@@ -360,9 +388,12 @@ End WithRedirect.
 (** ** The computed facts.  The enumeration is evaluated once ([reach0]); the
     states do not mention [redir], which stays symbolic in the checks. *)
 
-Definition reach0 : list st := Eval vm_compute in reach None.
+Definition buckets0 : list (N * list st) := Eval vm_compute in bucketise (reach None).
+Definition reach0 : list st := Eval vm_compute in flat buckets0.
+Lemma reach0_flat : reach0 = flat buckets0.
+Proof. vm_cast_no_check (eq_refl reach0). Qed.
 
-Lemma reach_closed : forall redir, closed_b redir reach0 = true.
+Lemma reach_closed : forall redir, closed_b redir buckets0 = true.
 Proof. intros redir. vm_cast_no_check (eq_refl true). Qed.
 
 Lemma inits_in_reach : forall x, In x inits -> In x reach0.
@@ -374,23 +405,23 @@ Qed.
 Lemma reach_props : forall redir, check_all reach0 (p_all redir) = true.
 Proof. intros redir. vm_cast_no_check (eq_refl true). Qed.
 
-Global Opaque reach0.
+Global Opaque reach0 buckets0.
 
 (** ** Lifting to every input sequence *)
 
 Section Lift.
 Variable redir : option N.
 
-Lemma closed_b_spec (R : list st) :
-  closed_b redir R = true -> forall x i, In x R -> In (nxt redir x i) R.
+Lemma closed_b_spec (B : list (N * list st)) :
+  closed_b redir B = true -> forall x i, In x (flat B) -> In (nxt redir x i) (flat B).
 Proof.
   unfold closed_b; intros H x i Hx.
   rewrite forallb_forall in H. specialize (H x Hx).
-  rewrite forallb_forall in H. apply mem_In, H, all_inputs_complete.
+  rewrite forallb_forall in H. apply bmem_In, H, all_inputs_complete.
 Qed.
 
 Lemma nxt_in_reach x i : In x reach0 -> In (nxt redir x i) reach0.
-Proof. exact (closed_b_spec reach0 (reach_closed redir) x i). Qed.
+Proof. rewrite reach0_flat. exact (closed_b_spec buckets0 (reach_closed redir) x i). Qed.
 
 Lemma local x i : In x reach0 -> p_all redir x i = true.
 Proof. intros Hx. exact (check_all_spec _ _ (reach_props redir) x i Hx). Qed.
